@@ -562,7 +562,7 @@ func (c *Cluster) Run(spec RequestSpec) *Result {
 		returned := make(chan struct{})
 		stuckAfter := spec.StuckAfter
 		if stuckAfter == 0 {
-			stuckAfter = 20 * time.Second
+			stuckAfter = 45 * time.Second
 		}
 		go func() {
 			t := time.NewTicker(50 * time.Millisecond)
